@@ -239,6 +239,8 @@ def line_formatter(ctx, cfg, resolution):
         ctx.assume(res > 0)
     else:
         res = resolution
+    # another formatter with another tag configuration lives in the same process: instances share nothing
+    LineProtocolFormatter({"fld", "f ld=2,", "dflt"}, resolution=1)
     fmt = LineProtocolFormatter(tags_param, resolution=res)
     payload = {}
     for key, role in KEYS:
@@ -265,6 +267,7 @@ def line_formatter(ctx, cfg, resolution):
         return "<line>"
 
     fmt.formatTime = lambda record, datefmt=None: "<time>"
+    payload_before = dict(payload)
     if ctx.mode == "conc":
         try:
             out = fmt.format(rec)
@@ -278,6 +281,13 @@ def line_formatter(ctx, cfg, resolution):
         with patched((fl_mod, "line_protocol", recorder)):
             out = fmt.format(rec)
     ctx.reach()
+    ctx.require(list(payload) == list(payload_before) and all(payload[k] is payload_before[k] for k in payload),
+                "formatting leaves the record's data untouched (other handlers see the same record)")
+    first_capture = dict(captured)
+    with patched((fl_mod, "line_protocol", recorder)):
+        fmt.format(rec)
+    ctx.require(sorted(captured["tags"]) == sorted(first_capture["tags"]) and sorted(captured["fields"]) == sorted(first_capture["fields"]),
+                "formatting the same record twice gives the same tags and fields")
     # oracle, from the statement
     exp_tags = dict(defaults)
     exp_tags.update({k: v for k, v in payload.items() if k in whitelist})
